@@ -20,8 +20,8 @@ for d in seeded/$glob/; do
       missinfo="$missinfo [$id: $last]"
     fi
   done
-  if [ -n "$caught" ]; then echo "caught  $name  ($tier) by$caught"; pass=$((pass+1));
-  else echo "MISSED  $name  ($tier)$missinfo"; miss=$((miss+1)); fi
+  if [ -n "$caught" ]; then echo "caught  $name  ($tier) by$caught"; pass=$((pass+1)); echo "caught ($tier, VERIF_SEED=${VERIF_SEED:-1}) by$caught" > "$d/result.txt";
+  else echo "MISSED  $name  ($tier)$missinfo"; miss=$((miss+1)); echo "MISSED ($tier, VERIF_SEED=${VERIF_SEED:-1})$missinfo" > "$d/result.txt"; fi
   missinfo=""
 done
 echo "caught=$pass missed=$miss"
